@@ -637,3 +637,167 @@ Example ex_history :
   map (fun p => (pg_name p, pg_w2s p)) (dv_known d) = [(2%nat, [3]); (3%nat, [1; 2; 4])] /\
   dv_dev d = [0; 14; 12; 16; 15] /\ dv_refs d = [1; 1; 1; 1; 1].
 Proof. vm_compute. repeat split. Qed.
+
+(* ------------------------------------------------------------------------------------------------------------- *)
+(* capacity: sum of the slot capacities vs total_capacity                                                          *)
+
+Lemma zsum_app a b : zsum (a ++ b) = zsum a + zsum b.
+Proof. unfold zsum. induction a; cbn; lia. Qed.
+
+Lemma mask_map {A B} (f : A -> B) m l : mask m (map f l) = map f (mask m l).
+Proof. revert l; induction m as [|b m IH]; intros [|x l]; cbn; auto. destruct b; cbn; rewrite IH; reflexivity. Qed.
+
+Lemma zsum_plus16 l : zsum l <= zsum (map (fun x => x + 16) l).
+Proof. unfold zsum. induction l; cbn; lia. Qed.
+
+Lemma zsum_firstn_le n l : Forall (fun x => 0 <= x) l -> zsum (firstn n l) <= zsum l.
+Proof.
+  unfold zsum. revert n; induction l as [|a l IH]; intros [|n] H; cbn; try lia.
+  - inversion H; subst. specialize (IH 0%nat H3). cbn in IH. lia.
+  - inversion H; subst. specialize (IH n H3). lia.
+Qed.
+
+Lemma Forall_firstn {A} (P : A -> Prop) n l : Forall P l -> Forall P (firstn n l).
+Proof. revert n; induction l; intros [|n] H; cbn; auto. inversion H; subst. constructor; auto. Qed.
+
+Lemma Forall_mask {A} (P : A -> Prop) m l : Forall P l -> Forall P (mask m l).
+Proof.
+  revert l; induction m as [|b m IH]; intros [|x l] H; cbn; auto. inversion H; subst.
+  destruct b; [constructor|]; auto.
+Qed.
+
+Record K (d : driver) : Prop := {
+  k_sum : zsum (dv_caps d) <= dv_total d;
+  k_nonneg : Forall (fun c => 0 <= c) (dv_caps d)
+}.
+
+Lemma do_writes_caps ws : forall d,
+  dv_caps (fst (do_writes d ws)) = dv_caps d /\ dv_total (fst (do_writes d ws)) = dv_total d.
+Proof.
+  induction ws as [|(s, (h, l)) ws IH]; intros d; cbn; auto.
+  unfold upload_segment.
+  destruct (negb _); [cbn; auto|]. destruct (0 <? _); [cbn; auto|]. destruct (_ <? l); [cbn; auto|].
+  destruct (IH {| dv_hashes := set_nth s h (dv_hashes d); dv_caps := dv_caps d; dv_refs := set_nth s 1 (dv_refs d);
+                  dv_total := dv_total d; dv_known := dv_known d; dv_dev := set_nth s h (dv_dev d) |}) as [H1 H2].
+  cbn in *. exact (conj H1 H2).
+Qed.
+
+Lemma free_program_caps d name :
+  dv_caps (fst (free_program d name)) = dv_caps d /\ dv_total (fst (free_program d name)) = dv_total d.
+Proof.
+  unfold free_program. destruct (find _ _); [|auto]. destruct (norm_all _ _); cbn; auto.
+Qed.
+
+Lemma K_free d name : K d -> K (fst (free_program d name)).
+Proof. intros [H1 H2]. destruct (free_program_caps d name) as [E1 E2]. constructor; rewrite ?E1, ?E2; assumption. Qed.
+
+Lemma K_cleanup d : K d -> K (cleanup d).
+Proof.
+  intros [H1 H2]. constructor; unfold cleanup; cbn [dv_caps dv_total].
+  - pose proof (zsum_firstn_le (first_free_of (dv_refs d)) _ H2). lia.
+  - apply Forall_firstn. exact H2.
+Qed.
+
+Lemma K_upload_core d1 name segs :
+  J d1 -> K d1 -> no_trailing_free d1 = true -> forallb (fun s => 0 <=? snd s) segs = true ->
+  K (fst (upload_core find_place d1 name segs)).
+Proof.
+  intros I [Hs Hnn] Hg Hlens. unfold upload_core.
+  set (mem := {| m_hashes := dv_hashes d1; m_refs := dv_refs d1; m_caps := dv_caps d1; m_total := dv_total d1 |}).
+  destruct (find_place mem (map fst segs) (map snd segs)) as [dec|e] eqn:Ep; [|constructor; assumption].
+  pose proof (find_place_decision_ok mem _ _ _ (J_refs_nonneg d1 I) Ep) as (_ & _ & C3 & _).
+  set (d2 := with_refs d1 _).
+  destruct (do_writes_caps (writes_of (d_insert dec) segs) d2) as [Ec Et].
+  destruct (do_writes d2 (writes_of (d_insert dec) segs)) as [d3 [e|]]; cbn [fst] in Ec, Et.
+  - cbn [fst]. constructor; rewrite ?Ec, ?Et; assumption.
+  - destruct (existsb (fun b => b) (d_amend dec)).
+    2:{ cbn [fst]. constructor; cbn [with_known dv_caps dv_total]; rewrite ?Ec, ?Et; assumption. }
+    (* the last slot is referenced, so "behind the last used slot" is "behind all slots" *)
+    assert (Hue : used_end mem dec = length (dv_refs d1)).
+    { unfold used_end. cbn [mem m_refs]. unfold no_trailing_free in Hg. apply Nat.eqb_eq in Hg.
+      destruct (first_free_spec (dv_refs d1)) as (_ & Hlast & _). rewrite Hg in Hlast.
+      destruct Hlast as [H0|(k & Hk & Hm)].
+      - pose proof (j_pos _ I). lia.
+      - rewrite Hk. cbn [used_end_upto]. unfold usedb. cbn [mem m_refs].
+        rewrite (nth_map_lt (fun r => 0 <? r) _ _ _ 0) in Hm by lia. rewrite Hm. reflexivity. }
+    unfold clause_amend in C3. rewrite Hue in C3. cbn [mem m_total m_caps] in C3.
+    rewrite <- (j_len_c _ I), firstn_all in C3.
+    unfold amend. cbn [fst]. constructor; cbn [with_known dv_caps dv_total]; rewrite Ec, ?Et;
+      cbn [d2 with_refs dv_caps dv_total].
+    + rewrite zsum_app. rewrite <- mask_map. pose proof (zsum_plus16 (mask (d_amend dec) (map snd segs))). lia.
+    + apply Forall_app. split; [exact Hnn|]. rewrite <- mask_map. apply Forall_mask.
+      apply Forall_forall. intros x Hx. apply in_map_iff in Hx as (s & <- & Hin).
+      rewrite forallb_forall in Hlens. specialize (Hlens s Hin). lia.
+Qed.
+
+Lemma K_clear t : 192 <= t -> K (clear t).
+Proof. intros H. constructor; cbn; [lia|repeat constructor; lia]. Qed.
+
+Lemma JK_run ops : forall d,
+  192 <= dv_total d -> J d -> K d -> guard_C19_append_behind_freed_slots d ops = true ->
+  K (run d ops) /\ J (run d ops).
+Proof.
+  induction ops as [|o ops IH]; intros d Ht I Kd Hg; cbn in *; [auto|].
+  apply andb_prop in Hg as [Hg1 Hg2].
+  assert (I' : J (fst (step_with find_place d o))) by (apply J_step; [exact find_place_decision_ok|exact I]).
+  assert (K' : K (fst (step_with find_place d o)) /\ dv_total (fst (step_with find_place d o)) = dv_total d).
+  { destruct o as [name segs force|name|name| |]; cbn [step_with op_guard] in *.
+    - apply andb_prop in Hg1 as [Hn Hl]. rewrite upload_with_unfold. unfold pre_state in Hn.
+      assert (Htot : forall d1, dv_total (fst (upload_core find_place d1 name segs)) = dv_total d1).
+      { intros d1. unfold upload_core. destruct (find_place _ _ _) as [dec|]; [|reflexivity].
+        set (d2 := with_refs d1 _).
+        destruct (do_writes_caps (writes_of (d_insert dec) segs) d2) as [_ Et].
+        destruct (do_writes d2 _) as [d3 [e|]]; cbn [fst] in *; [exact Et|].
+        destruct (existsb _ (d_amend dec)); cbn; exact Et. }
+      destruct (existsb (fun p => Nat.eqb (pg_name p) name) (dv_known d)) eqn:Eex.
+      + destruct force; [|auto].
+        pose proof (J_free d name I) as I1. pose proof (K_free d name Kd) as K1.
+        destruct (free_program_caps d name) as [_ Et1].
+        destruct (free_program d name) as [d1 [e|]]; cbn [fst] in *; [auto|].
+        split; [apply K_upload_core; assumption|]. rewrite Htot. exact Et1.
+      + split; [apply K_upload_core; assumption|apply Htot].
+    - split; [apply K_free; exact Kd|apply free_program_caps].
+    - pose proof (K_free d name Kd) as K1. destruct (free_program_caps d name) as [_ Et1].
+      destruct (free_program d name) as [d1 [e|]]; cbn [fst] in *; [auto|].
+      split; [apply K_cleanup; exact K1|exact Et1].
+    - split; [apply K_cleanup; exact Kd|reflexivity].
+    - split; [apply K_clear; exact Ht|reflexivity]. }
+  destruct K' as [K' Ht']. apply IH; auto. rewrite Ht'. exact Ht.
+Qed.
+
+Theorem history_capacity_guarded total ops :
+  192 <= total -> guard_C19_append_behind_freed_slots (clear total) ops = true ->
+  zsum (dv_caps (run (clear total) ops)) <= total.
+Proof.
+  intros Ht Hg. destruct (JK_run ops (clear total) Ht (J_clear total) (K_clear total Ht) Hg) as [[Hs _] _].
+  assert (Htot : forall ops d, dv_total (run d ops) = dv_total d).
+  { clear. induction ops as [|o ops IH]; intros d; cbn; [reflexivity|]. unfold run in IH. rewrite IH.
+    destruct o as [name segs force|name|name| |]; cbn [step_with].
+    - rewrite upload_with_unfold.
+      assert (Htot : forall d1, dv_total (fst (upload_core find_place d1 name segs)) = dv_total d1).
+      { intros d1. unfold upload_core. destruct (find_place _ _ _) as [dec|]; [|reflexivity].
+        set (d2 := with_refs d1 _).
+        destruct (do_writes_caps (writes_of (d_insert dec) segs) d2) as [_ Et].
+        destruct (do_writes d2 _) as [d3 [e|]]; cbn [fst] in *; [exact Et|].
+        destruct (existsb _ (d_amend dec)); cbn; exact Et. }
+      destruct (existsb _ (dv_known d)); [|apply Htot]. destruct force; [|reflexivity].
+      destruct (free_program_caps d name) as [_ Et1].
+      destruct (free_program d name) as [d1 [e|]]; cbn [fst] in *; [exact Et1|]. rewrite Htot. exact Et1.
+    - apply free_program_caps.
+    - destruct (free_program_caps d name) as [_ Et1].
+      destruct (free_program d name) as [d1 [e|]]; cbn [fst] in *; [exact Et1|]. exact Et1.
+    - reflexivity.
+    - reflexivity. }
+  rewrite Htot in Hs. exact Hs.
+Qed.
+
+(* the unguarded statement is false for the modelled driver (and for the real one, see corpus/C19): a forced re-upload
+   frees slots 2..4, the placement counts them as reclaimed, the new segments are appended behind them *)
+Definition overflow_ops : list op :=
+  [OUpload 1 [(11, 208); (15, 400); (26, 256); (4, 192)] true; OUpload 1 [(11, 208); (25, 400); (23, 384)] true].
+Lemma capacity_overflow_witness :
+  exists total ops, 192 <= total /\ ~ zsum (dv_caps (run (clear total) ops)) <= total.
+Proof. exists 2000, overflow_ops. split; [lia|]. vm_compute. intros H. apply H. reflexivity. Qed.
+
+Example ex_ops_guard : guard_C19_append_behind_freed_slots (clear 100000) ex_ops = true.
+Proof. vm_compute. reflexivity. Qed.
